@@ -6,6 +6,7 @@ objects (byte offset -> value).  Control: both sides of an undecided branch are 
 immediate post-dominator and merged with ite.  Obligations (bounds, division, null, unwinding) are
 recorded with their path condition and discharged by the caller.
 """
+import os
 import re, sys, struct, fnmatch
 import z3
 from .irparse import Module, take_type, split_top
@@ -1304,6 +1305,10 @@ class Engine:
             env[ins.dst] = [oldv, z3.If(ok, z3.BitVecVal(1, 1), z3.BitVecVal(0, 1))]
             return
         if op == 'unreachable':
+            # reached by ordinary control flow (after a call that came back): either a noreturn call modelled as returning, or source-level undefined
+            # behaviour that the optimiser folded away (e.g. a member call through a pointer it proved null) - the latter must not vanish silently
+            if os.environ.get('VF_UNREACHABLE_OBL', '1') == '1':
+                self.add_obl('unreachable', st, z3.BoolVal(True), 'control reaches an `unreachable` instruction (undefined behaviour in the source, folded by the optimiser)', self.where(fr, ins))
             return ('dead',)
         if op == 'extractvalue':
             ty, v, idxs = a
